@@ -224,7 +224,7 @@ func (self AnalyzedRangeLiteralExpression) String() string {
 	if self.EndIsInclusive {
 		endIsInclusiveStr = "="
 	}
-	return fmt.Sprintf("%s..%s%s", self.Start, endIsInclusiveStr, self.End)
+	return fmt.Sprintf("%s..%s%s", operandString(self.Start), endIsInclusiveStr, operandString(self.End))
 }
 func (self AnalyzedRangeLiteralExpression) Type() Type     { return NewRangeType(self.Range) }
 func (self AnalyzedRangeLiteralExpression) Constant() bool { return true }
@@ -382,6 +382,17 @@ func (self AnalyzedGroupedExpression) String() string       { return fmt.Sprintf
 func (self AnalyzedGroupedExpression) Type() Type           { return self.Inner.Type() }
 func (self AnalyzedGroupedExpression) Constant() bool       { return self.Inner.Constant() }
 
+// Renders an operand of another expression: a compound operand which is not wrapped in a
+// grouped expression is put into parentheses so that the parser builds the identical tree again.
+func operandString(node AnalyzedExpression) string {
+	switch node.Kind() {
+	case PrefixExpressionKind, InfixExpressionKind, AssignExpressionKind, CastExpressionKind, RangeLiteralExpressionKind:
+		return fmt.Sprintf("(%s)", node)
+	default:
+		return node.String()
+	}
+}
+
 //
 // Prefix expression
 //
@@ -396,7 +407,7 @@ type AnalyzedPrefixExpression struct {
 func (self AnalyzedPrefixExpression) Kind() ExpressionKind { return PrefixExpressionKind }
 func (self AnalyzedPrefixExpression) Span() errors.Span    { return self.Range }
 func (self AnalyzedPrefixExpression) String() string {
-	return fmt.Sprintf("%s%s", self.Operator, self.Base)
+	return fmt.Sprintf("%s%s", self.Operator, operandString(self.Base))
 }
 func (self AnalyzedPrefixExpression) Type() Type     { return self.ResultType }
 func (self AnalyzedPrefixExpression) Constant() bool { return self.Base.Constant() }
@@ -437,7 +448,7 @@ type AnalyzedInfixExpression struct {
 func (self AnalyzedInfixExpression) Kind() ExpressionKind { return InfixExpressionKind }
 func (self AnalyzedInfixExpression) Span() errors.Span    { return self.Range }
 func (self AnalyzedInfixExpression) String() string {
-	return fmt.Sprintf("%s %s %s", self.Lhs, self.Operator, self.Rhs)
+	return fmt.Sprintf("%s %s %s", operandString(self.Lhs), self.Operator, operandString(self.Rhs))
 }
 func (self AnalyzedInfixExpression) Type() Type { return self.ResultType }
 func (self AnalyzedInfixExpression) Constant() bool {
@@ -486,7 +497,7 @@ func (self AnalyzedCallExpression) String() string {
 		spawnPrefix = "spawn "
 	}
 
-	return fmt.Sprintf("%s%s(%s)", spawnPrefix, self.Base, self.Arguments)
+	return fmt.Sprintf("%s%s(%s)", spawnPrefix, operandString(self.Base), self.Arguments)
 }
 func (self AnalyzedCallExpression) Type() Type     { return self.ResultType }
 func (self AnalyzedCallExpression) Constant() bool { return false }
@@ -512,7 +523,7 @@ type AnalyzedIndexExpression struct {
 func (self AnalyzedIndexExpression) Kind() ExpressionKind { return IndexExpressionKind }
 func (self AnalyzedIndexExpression) Span() errors.Span    { return self.Range }
 func (self AnalyzedIndexExpression) String() string {
-	return fmt.Sprintf("%s[%s]", self.Base, self.Index)
+	return fmt.Sprintf("%s[%s]", operandString(self.Base), self.Index)
 }
 func (self AnalyzedIndexExpression) Type() Type     { return self.ResultType }
 func (self AnalyzedIndexExpression) Constant() bool { return self.Base.Constant() }
@@ -532,7 +543,7 @@ type AnalyzedMemberExpression struct {
 func (self AnalyzedMemberExpression) Kind() ExpressionKind { return MemberExpressionKind }
 func (self AnalyzedMemberExpression) Span() errors.Span    { return self.Range }
 func (self AnalyzedMemberExpression) String() string {
-	return fmt.Sprintf("%s%s%s", self.Base, self.Operator, self.Member.Ident())
+	return fmt.Sprintf("%s%s%s", operandString(self.Base), self.Operator, self.Member.Ident())
 }
 func (self AnalyzedMemberExpression) Type() Type     { return self.ResultType }
 func (self AnalyzedMemberExpression) Constant() bool { return self.Base.Constant() }
@@ -550,7 +561,7 @@ type AnalyzedCastExpression struct {
 func (self AnalyzedCastExpression) Kind() ExpressionKind { return CastExpressionKind }
 func (self AnalyzedCastExpression) Span() errors.Span    { return self.Range }
 func (self AnalyzedCastExpression) String() string {
-	return fmt.Sprintf("%s as %s", self.Base, self.AsType)
+	return fmt.Sprintf("%s as %s", operandString(self.Base), self.AsType)
 }
 func (self AnalyzedCastExpression) Type() Type     { return self.AsType }
 func (self AnalyzedCastExpression) Constant() bool { return self.Base.Constant() }
